@@ -469,6 +469,10 @@ func extractComponentType(input string) (string, bool, tree.ParsingError) {
 	for _, v := range tree.IGComponentSymbols {
 		// Check whether component is contained - introduces tolerance to excess text (as opposed to exact matching)
 		if strings.Contains(input, v) {
+			// Tolerate re-identification of the already identified (property) symbol (e.g., 'Bdir,p' following 'Bdir')
+			if ret == v {
+				continue
+			}
 			if ret != "" {
 				return ret, prop, tree.ParsingError{ErrorCode: tree.PARSING_ERROR_MULTIPLE_COMPONENTS_FOUND, ErrorMessage: "Multiple component specifications found (" + ret + " and " + v + ") " +
 					"when parsing component specification '" + input + "'."}
